@@ -412,7 +412,12 @@ class TFLiteSerialiser:
 
         # Make sure the input_tensors haven't been modified
         assert all(inp in sg.original_inputs for inp in sg.input_tensors)
-        inputs = [self.tensor_map_sg[tens] for tens in sg.original_inputs if tens in self.tensor_map_sg]
+        input_tensors = sg.original_inputs
+        positions = sg.original_input_positions
+        if positions is not None and all(pos < len(input_tensors) for pos in positions):
+            # Restore the original input list, including a tensor that was listed more than once
+            input_tensors = [input_tensors[pos] for pos in positions]
+        inputs = [self.tensor_map_sg[tens] for tens in input_tensors if tens in self.tensor_map_sg]
 
         inputs_offset = self.write_int_vector(inputs)
         output_tensors = sg.output_tensors
